@@ -328,6 +328,7 @@ func runC01(w *World, r *Report) {
 
 	// ---- 2b. the checkpoint a validation reads and the DAG it walks are switched atomically
 	checkpointPruneAtomic(w, r)
+	checkpointWritesEveryAddress(w, r, "checkpoint-replaces-every-record")
 
 	// ---- 3. validateLeaf is a funds check
 	vl := w.fx(r, "accountant", "AccountingBook", "validateLeaf")
@@ -561,47 +562,7 @@ func runC01(w *World, r *Report) {
 		}
 		r.check(ok, "funds-roles", "checkHasSufficientfunds/in.Drain(out)", w.Pos(f.fn.Pos()), "success only if in.Drain(*out, …) succeeded", "drain has other receiver/amount or its error does not gate success")
 	}
-	if f := w.fx(r, "accountant", "", "pourFunds"); f != nil {
-		pf := f.fn
-		addr, vrx, pin, pout := pf.Params[0].Name(), pf.Params[1].Name(), pf.Params[2].Name(), pf.Params[3].Name()
-		seen := map[string]bool{}
-		for _, c := range f.calls(nSupply) {
-			recv, a := callArgs(c)
-			side := pathOf(recv)
-			var want string
-			switch side {
-			case pout:
-				want = "IssuerAddress"
-			case pin:
-				want = "ReceiverAddress"
-			default:
-				r.bad("funds-roles", "pourFunds/Supply("+side+")", lineOf(w, c), "Supply only on the in/out parameters", "unexpected receiver")
-				continue
-			}
-			seen[side] = true
-			guard := cmpEdges(pf, pathIs(vrx+".Transaction."+want), pathIs(addr), true)
-			amountOK := pathOf(a[0]) == vrx+".Transaction.Spice"
-			r.check(behind(c, guard) && amountOK, "funds-roles", "pourFunds/"+side+"←"+want, lineOf(w, c),
-				fmt.Sprintf("%s.Supply(vrx.Transaction.Spice) only behind vrx.Transaction.%s == address", side, want), fmt.Sprintf("guarded=%v amount=%s", behind(c, guard), pathOf(a[0])))
-		}
-		r.check(seen[pin] && seen[pout], "funds-roles", "pourFunds/both-sides", w.Pos(pf.Pos()), "both inflow and outflow are accumulated", fmt.Sprintf("in=%v out=%v", seen[pin], seen[pout]))
-		// errors of Supply are propagated
-		for _, c := range f.calls(nSupply) {
-			bad := 0
-			for _, fe := range failErrNonNil(c) {
-				walkFrom(nil, fe.To(), nil, func(x ssa.Instruction) bool {
-					if ret, ok := x.(*ssa.Return); ok {
-						if successReturn(ret) {
-							bad++
-						}
-						return true
-					}
-					return false
-				})
-			}
-			r.check(bad == 0 && len(failErrNonNil(c)) > 0, "funds-roles", "pourFunds/Supply-error-propagated", lineOf(w, c), "a failing Supply makes pourFunds fail", "success return reachable after a failed Supply")
-		}
-	}
+	pourFundsRoles(w, r, "funds-roles")
 	// errors of pourFunds / Supply in validateLeaf are not ignored
 	r.rule("validate-no-dropped-error", "inside validateLeaf no error of a funds-accounting step is dropped (a dropped error would turn 'cannot account' into 'valid')", 5)
 	for _, c := range vl.calls(nPourFunds, nSupply, nCheckFunds, nVerify) {
@@ -675,5 +636,91 @@ func checkpointPruneAtomic(w *World, r *Report) {
 		si := sv.c.(ssa.Instruction)
 		dw.run(frameFor(f.fn, sv.chain), si.Block(), indexIn(si.Block(), si)+1)
 		r.check(unlocks == 0, "checkpoint-prune-atomic", "truncate/no-unlock-after-checkpoint", lineOf(w, sv.c), "no unlock of the ledger lock between the checkpoint write and the end of the truncation", fmt.Sprintf("%d unlock calls reachable after the checkpoint write", unlocks))
+	}
+}
+
+// pourFundsRoles: the per-vertex classifier shared by validation (C01) and balance queries (C06).
+func pourFundsRoles(w *World, r *Report, rule string) {
+	f := w.fx(r, "accountant", "", "pourFunds")
+	if f == nil {
+		return
+	}
+	pf := f.fn
+	addr, vrx, pin, pout := pf.Params[0].Name(), pf.Params[1].Name(), pf.Params[2].Name(), pf.Params[3].Name()
+	seen := map[string]bool{}
+	topSite := map[string]ssa.Instruction{}
+	supplies := deepCalls(pf, byName(nSupply), deepDepth)
+	for _, d := range supplies {
+		c := d.c
+		recv, a := callArgs(c)
+		side := d.path(recv)
+		var want string
+		switch side {
+		case pout:
+			want = "IssuerAddress"
+		case pin:
+			want = "ReceiverAddress"
+		default:
+			r.bad(rule, "pourFunds/Supply("+side+")", lineOf(w, c), "Supply only on the in/out parameters", "unexpected receiver")
+			continue
+		}
+		seen[side] = true
+		if len(d.chain) > 0 {
+			topSite[side] = d.chain[0].(ssa.Instruction)
+		} else {
+			topSite[side] = c.(ssa.Instruction)
+		}
+		guard := func(fn2 *ssa.Function, res resolver) []Edge {
+			is := func(p string) func(ssa.Value) bool { return func(v ssa.Value) bool { return res(v) == p } }
+			return cmpEdges(fn2, is(vrx+".Transaction."+want), is(addr), true)
+		}
+		guarded := behindDeepSite(d, guard)
+		amountOK := d.path(a[0]) == vrx+".Transaction.Spice"
+		r.check(guarded && amountOK, rule, "pourFunds/"+side+"←"+want, lineOf(w, c),
+			fmt.Sprintf("%s.Supply(vrx.Transaction.Spice) only behind vrx.Transaction.%s == address", side, want), fmt.Sprintf("guarded=%v amount=%s", guarded, d.path(a[0])))
+	}
+	// the two sides are independent tests: some execution performs both Supplies (a transfer whose issuer and receiver are
+	// the same address is counted on both sides; a first-match switch would count it as spent only)
+	both := false
+	if a, b := topSite[pin], topSite[pout]; a != nil && b != nil {
+		for _, pr := range [][2]ssa.Instruction{{a, b}, {b, a}} {
+			walkFrom(pr[0], nil, nil, func(x ssa.Instruction) bool {
+				if x == pr[1] {
+					both = true
+				}
+				return both
+			})
+		}
+	}
+	r.check(both, rule, "pourFunds/sides-independent", w.Pos(pf.Pos()), "one execution can supply both the outflow and the inflow side (self-transfers count on both)", "once one side matched the other side's Supply is unreachable")
+	r.check(seen[pin] && seen[pout], rule, "pourFunds/both-sides", w.Pos(pf.Pos()), "both inflow and outflow are accumulated", fmt.Sprintf("in=%v out=%v", seen[pin], seen[pout]))
+	// errors of Supply are propagated (where the Supply lives, and by the helper call that leads to it)
+	for _, d := range supplies {
+		sites := append([]ssa.CallInstruction{d.c}, d.chain...)
+		for _, c := range sites {
+			fn2 := c.Parent()
+			bad := 0
+			propagated := false
+			for _, ret := range returnsOf(fn2) {
+				vals, _ := resultVals(ret, len(ret.Results)-1)
+				for _, v := range vals {
+					if ev := errResult(c); ev != nil && sameVal(v, ev) {
+						propagated = true
+					}
+				}
+			}
+			for _, fe := range failErrNonNil(c) {
+				walkFrom(nil, fe.To(), nil, func(x ssa.Instruction) bool {
+					if ret, ok := x.(*ssa.Return); ok {
+						if successReturn(ret) {
+							bad++
+						}
+						return true
+					}
+					return false
+				})
+			}
+			r.check(bad == 0 && (len(failErrNonNil(c)) > 0 || propagated), rule, "pourFunds/Supply-error-propagated", lineOf(w, c), "a failing Supply makes pourFunds fail", "success return reachable after a failed Supply")
+		}
 	}
 }
